@@ -407,13 +407,13 @@ class Gen:
         if r < 0.4: return Ex(s + 'L', int(v), v)
         return Ex(s, int(v), v)
 
-    def value_for(self, t, bw=None):
+    def value_for(self, t, bw=None, allow_string=True):
         """constant expression for a scalar leaf of type t (bit-field of width bw)"""
         rng = self.rng
         if t.kind == 'p':
             r = rng.random()
             if r < 0.15: return Ex(rng.choice(['0', '(void *)0']), 0)
-            if r < 0.35:
+            if r < 0.35 and allow_string:
                 self.features.add('string-address')
                 return self.string_addr()
             self.features.add('address-constant')
@@ -500,18 +500,18 @@ class Gen:
             t = self.child(t, k)
         return t, bw
 
-    def plain(self, root, top, path, notes):
+    def plain(self, root, top, path, notes, allow_string=True):
         """an initializer without braces for the subobject at path: descend (p20); returns (token, leaf path)"""
         rng = self.rng
         while True:
             t = self.sub(root, path)
             if isinstance(t, Sc):
                 t, bw = self.leaf_info(root, path)
-                ex = self.value_for(t, bw)
+                ex = self.value_for(t, bw, allow_string)
                 if t.kind == 'b' and bw is not None and ex.ival not in (0, 1):
                     notes.add('bool-bitfield-not-01')
                 return ex, path
-            if isinstance(t, Arr) and self.str_elem_ok(t.elem) and rng.random() < 0.6 and (t.n is None or t.n > 0 or self.growable(root, top, path)):
+            if allow_string and isinstance(t, Arr) and self.str_elem_ok(t.elem) and rng.random() < 0.6 and (t.n is None or t.n > 0 or self.growable(root, top, path)):
                 n = None if self.growable(root, top, path) else t.n
                 return self.string_for(t.elem, n), path
             k = self.first_sub(root, top, path)
@@ -573,12 +573,12 @@ class Gen:
             self.features.add('nested-designator')
         return toks, paths
 
-    def braced(self, t, top, depth, notes):
-        """a brace-enclosed initializer list for a current object of type t"""
+    def braced(self, t, top, depth, notes, bw=None):
+        """a brace-enclosed initializer list for a current object of type t (bw: it is a bit-field of that width)"""
         rng = self.rng
         toks = ['{']
         if isinstance(t, Sc):
-            ex, _ = self.plain(t, top, [], notes)
+            ex = self.value_for(t, bw)
             toks.append(ex)
             if rng.random() < 0.2: toks.append(',')
             return toks + ['}']
@@ -590,6 +590,10 @@ class Gen:
         items = 0
         pdes = rng.choice([0.0, 0.0, 0.15, 0.4, 0.8])
         seen_paths = []
+        after_desg = False          # gcc puts a positional string literal that follows a nested designator into the designated row
+        # (`char b[3][2] = {[0][1] = 2, "b"}` gives b[0] = "b"): an oracle quirk, so no positional strings after a designator
+        flex_member = len(t.members) - 1 if (top and isinstance(t, Agg) and t.flex) else None
+        flex_used = False
         while items < max(target, 0) + 0 and items < 12:
             desg = []
             paths = None
@@ -610,32 +614,49 @@ class Gen:
                 self.features.add('designator')
                 if seen_paths and any(p < q for p in paths for q in seen_paths):
                     self.features.add('out-of-order-designator')
+            if flex_member is not None and paths[0][:1] == [flex_member]:
+                # GNU: the flexible array member gets exactly one initializer (gcc fixes its size at the first)
+                if flex_used:
+                    break
+                flex_used = True
+                if len(paths[0]) > 1:
+                    break
+                if not desg and isinstance(t.members[flex_member].ty.elem, (Sc,)) is False and rng.random() < 0.5:
+                    pass
             sub = self.sub(t, paths[0])
             pbrace = 0.45 if isinstance(sub, (Agg, Arr)) else 0.06
-            item = list(desg) + (['='] if desg and rng.random() < 0.97 else [])
+            if flex_member is not None and paths[0] == [flex_member]:
+                pbrace = 0.85
+            # `[index] value` without `=` is an (obsolete) GNU spelling gcc still accepts; `.member value` is not
+            item = list(desg) + (['='] if desg and not (desg[-1][0] != '.' and rng.random() < 0.06) else [])
             if desg and not item[-1:] == ['=']:
                 self.features.add('designator-without-equals')
             if rng.random() < pbrace and depth > 0:
                 # braces: the whole subobject
                 g = self.growable(t, top, paths[0])
                 st = Arr(sub.elem, None) if g else sub
-                item += self.braced(st, False, depth - 1, notes)
+                item += self.braced(st, False, depth - 1, notes, self.leaf_info(t, paths[0])[1] if isinstance(sub, Sc) else None)
                 last = paths[-1]
                 if any(self.touched_prefix(seen_paths, p) for p in paths):
                     notes.add('maybe-override')
             else:
                 if len(paths) > 1 and not isinstance(sub, Sc):
                     break
-                ex, leaf = self.plain(t, top, paths[0], notes)
+                ex, leaf = self.plain(t, top, paths[0], notes, allow_string=bool(desg) or not after_desg)
                 if ex is None:
                     break
                 item.append(ex)
                 last = paths[-1] + leaf[len(paths[0]):]
+                if flex_member is not None and leaf[:1] == [flex_member]:
+                    flex_used = True
             if items: toks.append(',')
             toks += item
             seen_paths += paths
             items += 1
+            after_desg = after_desg or bool(desg)
             cur = self.next(t, top, last)
+            if flex_member is not None and flex_used and cur is not None and cur[:1] == [flex_member] and not isinstance(item[-1], Ex):
+                cur = None
         if rng.random() < 0.3 and items:
             toks.append(','); self.features.add('trailing-comma')
         if isinstance(t, (Agg, Arr)) and items < nleaves:
@@ -976,6 +997,9 @@ class Runner:
             if str(crej[k]).startswith('crash'):
                 corr.violations.append({'what': 'program compiled by chibicc crashes', 'input': inp, 'expected': 'runs', 'got': crej[k]})
                 return
+            if parse_ok and m.get('static', '').startswith('fail diag'):
+                corr.count('both_reject_nonconstant')       # write_gvar_data's "not a compile-time constant"
+                return
             if parse_ok:
                 corr.disagreements.append({'kind': 'parse', 'input': inp, 'impl': 'rejected: ' + str(crej[k]), 'model': m['parse']})
             if k not in grej and spec_ok:
@@ -1157,7 +1181,7 @@ def correspond(ctx, corr):
     runner = Runner(ctx, corr)
     cases = load_corpus()
     corr.count('corpus', len(cases))
-    total = 4000 if ctx.thorough else 400
+    total = 20000 if ctx.thorough else 1200
     batch = 40
     todo = list(cases)
     while len(todo) < total + len(cases):
